@@ -132,7 +132,9 @@ def make_layout(rng, chain, coin, assign="contiguous", nfiles=3, gaps="none", nu
         while dnum in names:
             dnum += 1
         extra_files.append((default_name(dnum, 5), None))  # a directory named like a blk file
-    index_opts = index_style or {}
+    index_opts = dict(index_style or {})
+    if rng.random() < 0.5:
+        index_opts["vary_records"] = rng.getrandbits(32)     # record fields as nodes of different ages write them
     desc = {"assign": assign, "files": len(used), "gaps": gaps, "numbering": numbering, "pad": pad, "sparse": sparse, "extras": extras,
             "index": index_opts, "file_order": file_order}
     return dict(placements=placements, names=names, extra_keys=extra_keys, extra_files=extra_files, index_opts=index_opts, order=order,
